@@ -638,6 +638,49 @@ func (m *Model) ruleMONO(r *Results) {
 				}
 				r.check(foreign == "", rule, key+" / seeding depends only on the comparison with the mark", pos, "the store is controlled by nothing but the comparison of the given value with the old mark", "whether the seeding function raises the mark also depends on another condition (at "+foreign+"): a persisted CAS that is above the mark can then be ignored, and the clock hands out that CAS (or a smaller one) again when the wall clock stands still or steps back")
 			}
+			// ... on EVERY path: with the edges that establish old < x (old <= x for seeding) removed,
+			// the store is unreachable (a second way into the branch - `a && b` false through b -
+			// would store x although old >= x)
+			if strict || nonstrict {
+				cg := newCut()
+				for _, iff := range allIfs(fn) {
+					cd := condOf(iff)
+					if cd.Op == token.ILLEGAL || cd.Y == nil {
+						continue
+					}
+					x, y := stripConv(cd.X), stripConv(cd.Y)
+					_, fx, okx := fieldLoad(x)
+					_, fy, oky := fieldLoad(y)
+					oldLeft := okx && fx == hw && sameValue(y, val)
+					oldRight := oky && fy == hw && sameValue(x, val)
+					if !oldLeft && !oldRight {
+						continue
+					}
+					op := cd.Op
+					if oldRight {
+						op = map[token.Token]token.Token{token.LSS: token.GTR, token.GTR: token.LSS, token.LEQ: token.GEQ, token.GEQ: token.LEQ, token.EQL: token.EQL, token.NEQ: token.NEQ}[op]
+					}
+					// the edge on which old < x (strictly) holds
+					switch op {
+					case token.GEQ:
+						cg.cutEdge(iff.Block(), cd.succWhen(false))
+					case token.LSS:
+						cg.cutEdge(iff.Block(), cd.succWhen(true))
+					case token.GTR:
+						if !returnsStamp {
+							cg.cutEdge(iff.Block(), cd.succWhen(false))
+						}
+					case token.LEQ:
+						if !returnsStamp {
+							cg.cutEdge(iff.Block(), cd.succWhen(true))
+						}
+					}
+				}
+				if entryReach(fn, cg)[st.Block().Index] {
+					r.bad(rule, key+" guarded on every path", pos, "the store of a value other than old+1 into the clock's high-water mark is reachable on a path on which the comparison with the old mark did not find the new value above it (a second condition lets the branch be entered with old >= x): the mark - and with it the CAS sequence of every bucket in the process - can go backwards")
+					continue
+				}
+			}
 			switch {
 			case strict:
 				r.ok(rule, key+" = x under old<x", pos, "stored only when strictly above the previous value")
